@@ -8,6 +8,8 @@ import (
 	"fmt"
 	"math/rand"
 	"sort"
+	"strings"
+	"unicode"
 
 	seccomp "github.com/elastic/go-seccomp-bpf"
 	"github.com/elastic/go-seccomp-bpf/arch"
@@ -195,14 +197,20 @@ type SysPair struct {
 }
 
 type Conc struct {
-	Arch   *arch.Info
-	Sys    []SysPair // abstract syscall id -> real syscall
-	Pos    [6]int    // abstract argument position -> real position
-	Hi, Lo Embedding
-	LE     bool
-	W      int
-	X32Bit int
-	NSys   int
+	// Unknown: the spelling used for the abstract "unknown syscall" (empty: UnknownName)
+	Unknown string
+	// ParseOps: operations reach the policy through Operation.Unpack from a spelling in random letter case (as a configuration
+	// file may spell them), not as the exported constants
+	ParseOps bool
+	rngOps   *rand.Rand
+	Arch     *arch.Info
+	Sys      []SysPair // abstract syscall id -> real syscall
+	Pos      [6]int    // abstract argument position -> real position
+	Hi, Lo   Embedding
+	LE       bool
+	W        int
+	X32Bit   int
+	NSys     int
 }
 
 func (c *Conc) Describe() map[string]interface{} {
@@ -239,10 +247,59 @@ func (c *Conc) sysName(id int) string {
 	if id >= 0 && id < len(c.Sys) {
 		return c.Sys[id].Name
 	}
+	if c.Unknown != "" {
+		return c.Unknown
+	}
 	return UnknownName
 }
 
+// PickUnknown chooses what "a name unknown to the target architecture" is for this concretisation: a name no table has, a
+// name another architecture's table has but this one does not (uselib for x32, socketcall for x86_64, ...), or a name of
+// this table in another letter case (syscall names are case sensitive).
+func (c *Conc) PickUnknown(rng *rand.Rand) {
+	switch rng.Intn(3) {
+	case 0:
+		c.Unknown = ""
+	case 1:
+		var foreign []string
+		for _, o := range []*arch.Info{arch.X86_64, arch.X32, arch.I386, arch.ARM, arch.AARCH64} {
+			for n := range o.SyscallNames {
+				if _, ok := c.Arch.SyscallNames[n]; !ok {
+					foreign = append(foreign, n)
+				}
+			}
+		}
+		sort.Strings(foreign)
+		if len(foreign) > 0 {
+			c.Unknown = foreign[rng.Intn(len(foreign))]
+		}
+	default:
+		var own []string
+		for n := range c.Arch.SyscallNames {
+			own = append(own, n)
+		}
+		sort.Strings(own)
+		for try := 0; try < 20; try++ {
+			n := own[rng.Intn(len(own))]
+			v := strings.ToUpper(n[:1]) + n[1:]
+			if rng.Intn(2) == 0 {
+				v = strings.ToUpper(n)
+			}
+			if _, ok := c.Arch.SyscallNames[v]; !ok && v != n {
+				c.Unknown = v
+				break
+			}
+		}
+	}
+}
+
 // Build makes the real policy value.
+var canonicalOps = map[string]bool{"Equal": true, "NotEqual": true, "GreaterThan": true, "GreaterOrEqual": true, "LessThan": true, "LessOrEqual": true,
+	"BitsSet": true, "BitsNotSet": true}
+
+// SetParseOps makes Build obtain operations through the parser (seeded letter case).
+func (c *Conc) SetParseOps(rng *rand.Rand) { c.ParseOps, c.rngOps = true, rng }
+
 func (c *Conc) Build(p *Policy) seccomp.Policy {
 	pol := seccomp.Policy{DefaultAction: seccomp.Action(actionConst[p.Def])}
 	for _, g := range p.Groups {
@@ -257,8 +314,23 @@ func (c *Conc) Build(p *Policy) seccomp.Policy {
 				if cd.Arg >= 0 && cd.Arg <= 5 {
 					arg = uint32(c.Pos[cd.Arg])
 				}
+				op := seccomp.Operation(cd.Op)
+				if c.ParseOps && c.rngOps != nil && canonicalOps[cd.Op] {
+					b := []byte(cd.Op)
+					for i := range b {
+						if c.rngOps.Intn(2) == 0 {
+							b[i] = byte(unicode.ToLower(rune(b[i])))
+						} else {
+							b[i] = byte(unicode.ToUpper(rune(b[i])))
+						}
+					}
+					var parsed seccomp.Operation
+					if err := parsed.Unpack(string(b)); err == nil {
+						op = parsed
+					}
+				}
 				nc.Conditions = append(nc.Conditions, seccomp.Condition{
-					Argument: arg, Operation: seccomp.Operation(cd.Op), Value: c.Embed64(cd.Val)})
+					Argument: arg, Operation: op, Value: c.Embed64(cd.Val)})
 			}
 			sg.NamesWithCondtions = append(sg.NamesWithCondtions, nc)
 		}
